@@ -858,6 +858,11 @@ def ambiguity(m, ex, entries, ti, focus=None):
                 return "ratio_zero_denominator"
             if den_i <= 0 and abs(num_i - 1e-6) < 1e-12:
                 return "ratio_zero_denominator"
+            # a characteristic that no dynamic parameter reads is never updated during the run: whoever reads it afterwards (postcompute parameters, results)
+            # gets the REPORTED form, 0 for a numerator below 1e-6 whatever the denominator (C07's text); the model evaluates every parameter with the
+            # in-run form numerator/denominator.  Outside the model's scope (C06's oracle accepts either form there): no claim
+            if not getattr(c, "_is_dynamic", False) and den_i > 0 and 0 < num_i < 1e-6:
+                return "ratio_reported_form"
     for p in ex["pars"]:
         agg = p.pop_aggregation
         if not agg or not agg[0].endswith("AVG") or len(agg) < 4 or id(p) not in reach:
